@@ -1,6 +1,10 @@
 use std::cmp::Ordering;
 use std::collections::hash_map;
+#[cfg(not(feature = "verif"))]
 use std::collections::HashMap;
+#[cfg(feature = "verif")]
+#[allow(unused_imports)]
+use crate::verif::{HashMap, MapNew};
 
 use crate::set::HpoSet;
 use crate::utils::Combinations;
